@@ -1,6 +1,7 @@
 import Driver.Util
 import Driver.Levels
 import Originium.Model.DiskRecover
+import Originium.Model.DiskProg
 /-! Suite `disk`: the file-system trace recorded by the hooks is replayed through the acceptance
     check `Disk.accept`; at crash points the model's recovery is compared with the real `Open`. -/
 namespace Driver
@@ -9,8 +10,32 @@ open Key VKey LSM Disk
 structure DkSt where
   s : TSt
   tainted : Bool          -- a rule was violated earlier in this trace
+  m : Prog.Mem            -- volatile state of the program model (`DiskProg`) following the trace
+  lost : Bool             -- the trace left the program model earlier
 
-def dkInit : DkSt := { s := TSt.init, tainted := false }
+def dkInit : DkSt := { s := TSt.init, tainted := false, m := Prog.Mem.init, lost := false }
+
+def oneLine (f : Std.Format) : String :=
+  " ".intercalate ((f.pretty 1000000).splitOn "\n" |>.map (fun l => String.ofList (l.toList.dropWhile (· == ' '))))
+
+def showC : Prog.CPc → String
+  | .down => "down"
+  | .ordered ws => s!"open(directory listed, wals {ws})"
+  | .idle => "idle"
+  | .commit b sy => s!"commit({b.length} entries, synced={sy})"
+  | .closing => "closing"
+  | .openRec new w rs ws sy => s!"open(new wal {new}, replaying wal {w}, {rs.length} records left, then wals {ws}, synced={sy})"
+  | .openTmp new ns => s!"open(new wal {new}, leftover temporary files {ns})"
+
+def showPc (m : Prog.Mem) : String :=
+  s!"foreground={showC m.c} flusher={oneLine (repr m.f)} active={oneLine (repr m.active)} queue={m.imms}"
+
+/-- follow the trace in the program model: is this event one the modelled engine emits here? -/
+def progEv (d : DkSt) (pe : Prog.PEv) (what : String) : Prog.Mem × Bool × String :=
+  if d.lost then (d.m, true, "")
+  else match Prog.act d.s d.m pe with
+    | some m' => (m', false, "")
+    | none => (d.m, true, s!" NOT-PROGRAM the modelled engine does not emit {what} in state {showPc d.m}")
 
 def showVal' : Option (List UInt8) → String
   | some b => hex b
@@ -49,7 +74,7 @@ def whyRejected (s : TSt) : Ev → String
     if !decide (Guard s.d s.low (.walAppend id b)) then "commit batch not newer than stored data"
     else if !decide (FreshBatch s.d b) then "commit batch is not fresh"
     else "commit into an unknown wal"
-  | .ack _ => "acknowledged before the batch was synced"
+  | .ack _ => "acknowledged before the batch was synced (it is neither in the synced part of a wal nor in a published table)"
   | .raise _ => "watermark went down"
   | .op o =>
     if !decide (Guard s.d s.low o) then
@@ -61,10 +86,11 @@ def whyRejected (s : TSt) : Ev → String
       | _ => "guard"
     else "content rule (unsorted table or foreign entry)"
 
-def runEv (d : DkSt) (ev : Ev) : DkSt × String :=
+def runEv (d : DkSt) (ev : Ev) (what : String) : DkSt × String :=
+  let (m', lost', pmsg) := progEv d (.ev ev) what
   match accept d.s ev with
-  | some s' => ({ d with s := s' }, "ok")
-  | none => ({ s := force d.s ev, tainted := true }, "REJECTED " ++ whyRejected d.s ev)
+  | some s' => ({ d with s := s', m := m', lost := lost' }, "ok" ++ pmsg)
+  | none => ({ d with s := force d.s ev, tainted := true, m := m', lost := lost' }, "REJECTED " ++ whyRejected d.s ev ++ pmsg)
 
 def cutWals (d : D) (cuts : List (Nat × Nat)) : D :=
   { d with wals := d.wals.map fun w => match cuts.lookup w.id with
@@ -82,19 +108,19 @@ def diskStep (d : DkSt) (toks : List String) : DkSt × String :=
   | ["reset"] => (dkInit, "ok")
   | ["ev", "commit", id, es] =>
     match id.toNat?, parseEntries es with
-    | some id, some es => runEv d (.commit id es)
+    | some id, some es => runEv d (.commit id es) s!"commit {id}"
     | _, _ => (d, "bad-op")
   | ["ev", "ack", es] =>
     match parseEntries es with
-    | some es => runEv d (.ack es)
+    | some es => runEv d (.ack es) "ack"
     | none => (d, "bad-op")
   | ["ev", "raise", low] =>
     match low.toNat? with
-    | some low => runEv d (.raise low)
+    | some low => runEv d (.raise low) s!"raise {low}"
     | none => (d, "bad-op")
   | "ev" :: "op" :: name :: args =>
     match parseOp name args with
-    | some o => runEv d (.op o)
+    | some o => runEv d (.op o) (" ".intercalate (name :: args.take 1))
     | none => (d, "bad-op")
   | ["image", bs, keys] =>
     match bs.toNat?, parseKeys keys with
@@ -104,6 +130,19 @@ def diskStep (d : DkSt) (toks : List String) : DkSt × String :=
     match bs.toNat?, parseCuts cuts, parseKeys keys with
     | some bs, some cuts, some keys => (d, readAll bs (cutWals d.s.d cuts) keys)
     | _, _, _ => (d, "bad-op")
+  | ["plan", ins, n] =>
+    match (if ins == "-" then some [] else (ins.splitOn ",").mapM String.toNat?), n.toNat? with
+    | some ins, some n =>
+      let (m', lost', pmsg) := progEv d (.plan ins n) s!"plan {ins} {n}"
+      ({ d with m := m', lost := lost' }, "ok" ++ pmsg)
+    | _, _ => (d, "bad-op")
+  | ["order", ws] =>
+    match (if ws == "-" then some [] else (ws.splitOn ",").mapM String.toNat?) with
+    | some ws =>
+      let (m', lost', pmsg) := progEv d (.order ws) s!"order {ws}"
+      ({ d with m := m', lost := lost' }, "ok" ++ pmsg)
+    | none => (d, "bad-op")
+  | ["crash"] => ({ d with m := Prog.crashMem d.m }, "ok")
   | "expectok" :: _ => (d, "ok")
   | _ => (d, "bad-op")
 
